@@ -96,6 +96,7 @@ class UCMM( device.Object ):
         0x006f: "SendRRData",
     }
     lock			= threading.Lock()
+    route_lock			= threading.Lock()	# guards the (shared) table of connections to route targets
     sessions			= {}		# All known session handles, by addr
 
 
@@ -292,19 +293,27 @@ class UCMM( device.Object ):
                         timeoutms	= ( 1 << unc_send.priority ) * unc_send.timeout_ticks
                         timeout		= timeoutms / 1000.0
                         data.enip.status= 0x65
+                        route			= None
                         try:
-                            if target not in self.route_conn:
-                                log.normal( "UCMM: port/link %s --> %r; creating route w/ timeout %fms", portlink, target, timeoutms )
-                                self.route_conn[target] \
+                            # The connection to a route target is shared by all sessions: find or create
+                            # it atomically, and remember which one we use (it may be replaced meanwhile).
+                            with self.route_lock:
+                                route		= self.route_conn.get( target )
+                                if route is None:
+                                    log.normal( "UCMM: port/link %s --> %r; creating route w/ timeout %fms", portlink, target, timeoutms )
+                                    route	= self.route_conn[target] \
                                         = client.connector( host=target[0], port=target[1], timeout=timeout )
-                            with self.route_conn[target] as conn:
+                            with route as conn:
+                                # While we waited for it, whoever held this route may have failed and closed it
+                                assert self.route_conn.get( target ) is route, \
+                                    "Route %s --> %s:%s failed while awaiting it" % ( portlink, target[0], target[1] )
                                 # Trim route_path; if empty, send with no route_path (Simple; no routing
                                 # encapsulation).  Otherwise, send with remaining route_path.
                                 sub_rp	= route_path[1:] or []
                                 sub_sp	= unc_send.path.segment if sub_rp else ''
                                 if log.isEnabledFor( logging.DETAIL ):
                                     log.detail( "%r Route %s --> %s Request (RP: %s, SP: %s) %s", self, portlink,
-                                                self.route_conn[target], sub_rp, sub_sp,
+                                                route, sub_rp, sub_sp,
                                                 parser.enip_format( unc_send.request ) if log.isEnabledFor( logging.INFO ) else "" )
                                 conn.unconnected_send( request=unc_send.request,
                                     route_path=sub_rp, send_path=sub_sp, timeout=timeout,
@@ -315,11 +324,11 @@ class UCMM( device.Object ):
                                         portlink, target[0], target[1], timeoutms )
                                 assert rsp.enip.status == 0, \
                                     "Error status %s in EtherNet/IP Response from Route %s --> %s" % (
-                                        rsp.enip.status, portlink, self.route_conn[target] )
+                                        rsp.enip.status, portlink, route )
                                 # Return the unconnected_send response from the client, as our own.
                                 if log.isEnabledFor( logging.DETAIL ):
                                     log.detail( "%r Route %s --> %s Response %s", self, portlink,
-                                                self.route_conn[target],
+                                                route,
                                                 parser.enip_format( rsp ) if log.isEnabledFor( logging.INFO ) else "" )
                                 unc_send= rsp.enip.CIP.send_data.CPF.item[1].unconnected_send
                         except Exception as exc:
@@ -327,9 +336,12 @@ class UCMM( device.Object ):
                             log.normal( "UCMM: port/link %s --> %r; closing route due to: %s", portlink, target, exc )
                             # Close it now: another session may already be waiting for this (shared)
                             # route, and must not pick up a response that is still in flight on it.
-                            failed	= self.route_conn.pop( target, None )
-                            if failed is not None:
-                                failed.close()
+                            # Close the one we used; forget it only if it is still the one registered.
+                            with self.route_lock:
+                                if route is not None and self.route_conn.get( target ) is route:
+                                    self.route_conn.pop( target )
+                            if route is not None:
+                                route.close()
                             raise
                         else:
                             # Successful
